@@ -34,12 +34,13 @@ type Closure struct {
 // Map is an ordered association list with tombstones (nil key).
 // Cond, when non-nil for an entry, is the symbolic presence condition of that entry.
 type Map struct {
-	KT    types.Type
-	VT    types.Type
-	Keys  []Value
-	Vals  []Value
-	Conds []*Term // nil slice = all unconditional
-	id    int
+	KT     types.Type
+	VT     types.Type
+	Keys   []Value
+	Vals   []Value
+	Conds  []*Term // nil slice = all unconditional
+	id     int
+	noPerm bool // iteration order not permuted (objects built by environment stubs)
 }
 
 func (m *Map) cond(i int) *Term {
